@@ -829,6 +829,12 @@ class WheelTickInput(MessagePayload):
     def calcsize(cls) -> int:
         return MeasurementDetails.calcsize() + cls._STRUCT.size
 
+    def __getattr__(self, item):
+        if item == 'p1_time':
+            return self.details.p1_time
+        else:
+            return super().__getattr__(item)
+
     def __str__(self):
         newline = '\n'
         return f"""\
@@ -1150,6 +1156,12 @@ class DeprecatedVehicleSpeedMeasurement(MessagePayload):
     def calcsize(cls) -> int:
         return MeasurementDetails.calcsize() + cls._STRUCT.size
 
+    def __getattr__(self, item):
+        if item == 'p1_time':
+            return self.details.p1_time
+        else:
+            return super().__getattr__(item)
+
     def __str__(self):
         newline = '\n'
         return f"""\
@@ -1289,6 +1301,12 @@ GNSS Attitude Output @ {str(self.details.p1_time)}
     def calcsize(cls) -> int:
         return cls._STRUCT.size + MeasurementDetails.calcsize()
 
+    def __getattr__(self, item):
+        if item == 'p1_time':
+            return self.details.p1_time
+        else:
+            return super().__getattr__(item)
+
     @classmethod
     def to_numpy(cls, messages: Sequence['GNSSAttitudeOutput']):
         result = {
@@ -1412,6 +1430,12 @@ Raw GNSS Attitude Output @ {str(self.details.p1_time)}
     @classmethod
     def calcsize(cls) -> int:
         return cls._STRUCT.size + MeasurementDetails.calcsize()
+
+    def __getattr__(self, item):
+        if item == 'p1_time':
+            return self.details.p1_time
+        else:
+            return super().__getattr__(item)
 
     @classmethod
     def to_numpy(cls, messages: Sequence['RawGNSSAttitudeOutput']):
